@@ -126,7 +126,8 @@ def run(tier: str, seed: int) -> Report:
                 "every operation of the model (forward offset 0..N, tail 1..N, head 0..N, reverse, len; 4 thresholds) "
                 "fresh and after each of 10 state-changing first operations, x containers zst/gz/plain/stdin-pipe/"
                 "stdin-file x prefix all/none/mixed; plus seeded random logs (arbitrary Unicode, control characters, "
-                "newlines, long lines, 7 levels, tags, exc_info, %-args), hr argv combinations and TLC-simulated "
+                "newlines, long lines, 7 levels, tags, exc_info, %-args; mutable %-arguments / message objects that the "
+                "caller changes right after the call, writer keeping up or held up), hr argv combinations and TLC-simulated "
                 "design behaviours; distinct = distinct (log, container, prefix, api, operation sequence); "
                 "non-trivial = log non-empty and (operation other than plain forward-all, or a used reader, or a "
                 "container other than the writer's own file)")
@@ -306,6 +307,26 @@ def _drive(rep: Report, tier: str, seed: int, P: Any, d: Path, futs: dict[str, A
     cslow = P.Container(wslow, "zst", "all", d)
     for o in (P.op("fwd", 8), P.op("len"), P.op("tail", 8, 3)):
         batch.add(wslow, P.run_reader_session(cslow, [o]), meta("reader", cslow, "writer-held-up"))
+    # a caller that logs mutable objects (findings list, receive buffer, state dict, status object, ring buffer) as
+    # %-style arguments or as the message itself and changes them right after the call -- with the writer thread
+    # keeping up and with the writer thread held up: what is read back is the text at the time of the call
+    mut_stats: dict[str, Any] = {}
+    for k, (nrec, slow) in enumerate(((12, False), (60, False), (60, True), (400, False), (400, True))
+                                     + (() if quick else ((3000, False), (3000, True)))):
+        sp = P.spec_random(seed, 1010 + k, nrec, "mutable")
+        if slow:
+            sp["slow_writer"] = True
+        wmut = P.write_log(sp, d, f"mut{k}")
+        if wmut.mut_changed == 0:
+            raise Machinery("mutable-arguments family: no log call whose arguments rendered differently afterwards")
+        mut_stats[f"{nrec}{'/writer-held-up' if slow else ''}"] = wmut.mut_changed
+        for kind, prefix in (("zst", "all"), ("gz", "none")):
+            cmut = P.Container(wmut, kind, prefix, d)
+            for o in ((P.op("fwd", 8), P.op("rev", 8), P.op("fwd", 5), P.op("tail", 8, 7), P.op("len"))
+                      if kind == "zst" else (P.op("fwd", 8),)):
+                batch.add(wmut, P.run_reader_session(cmut, [o], content=nrec <= 400),
+                          meta("reader", cmut, "mutable-args-changed-after-the-call"))
+    rep.extra["mutable_args_calls_rendering_differently_afterwards"] = mut_stats
     mark("drive_random")
     # ---- 3. spec -> code: behaviours of the design layer (all deviations off) replayed on real logs
     _collect_mc(rep, futs)
